@@ -1,8 +1,36 @@
 #!/bin/sh
 # usage: check.sh <property> [quick|thorough]
 # Rebuilds nothing but reads /repo's current working tree on every run (go/packages load with -tags verif).
+# thorough = the same obligations with 60 s caps and three-solver agreement, followed by the sensitivity self-test of the
+# property's check (tools/selftest_prop.sh: seeded breaking changes and reverted fixes applied to a scratch copy of the
+# working tree must be re-detected); the self-test prints SELFTEST lines only, is recorded in the evidence file under
+# coverage.selftest, and does not change the exit status.
 cd /verif || exit 2
 export GOFLAGS=-mod=mod GOPROXY=off
 ID="$1"; TIER="${2:-${VERIF_TIER:-quick}}"
 [ -x /verif/bin/govc ] || (cd /verif/govc && GOFLAGS=-mod=vendor go build -o /verif/bin/govc .) || exit 2
-exec /verif/bin/govc check -prop "$ID" -tier "$TIER"
+if [ "$TIER" != "thorough" ]; then
+  exec /verif/bin/govc check -prop "$ID" -tier "$TIER"
+fi
+/verif/bin/govc check -prop "$ID" -tier thorough
+st=$?
+[ $st -eq 2 ] && exit 2
+ST_OUT=$(/verif/tools/selftest_prop.sh "$ID" 2>&1 | grep '^SELFTEST')
+echo "$ST_OUT"
+EVF="${GOVC_EVIDENCE_DIR:-/verif/evidence}/$ID.json"
+if [ -f "$EVF" ]; then
+  ST_OUT="$ST_OUT" python3 - "$EVF" <<'PY'
+import json,os,re,sys
+p=sys.argv[1]
+e=json.load(open(p))
+lines=[l for l in os.environ.get('ST_OUT','').splitlines() if l.startswith('SELFTEST')]
+cases=[l for l in lines if ' case=' in l]
+m=re.search(r'summary: (\d+) of (\d+) breaking changes re-detected, (\d+) skipped', lines[-1]) if lines else None
+e.setdefault('coverage',{})['selftest']={
+ "what":"sensitivity self-test of this check: seeded breaking changes (sub-agents given only the property text) and reverted fix commits applied to a scratch copy of /repo's working tree; the quick check must report a violation on each",
+ "re_detected": int(m.group(1)) if m else 0, "run": int(m.group(2)) if m else 0, "skipped_not_applicable": int(m.group(3)) if m else 0,
+ "cases": cases}
+json.dump(e,open(p,'w'),indent=1)
+PY
+fi
+exit $st
